@@ -6,6 +6,7 @@ package main
 import (
 	"fmt"
 	"go/types"
+	"regexp"
 	"strings"
 
 	"golang.org/x/tools/go/ssa"
@@ -332,6 +333,118 @@ func init() {
 	}
 	stubs["internal/stringslite.Clone"] = func(e *Exec, fn *ssa.Function, a []Value) Value { return a[0] }
 	stubs["strings.Clone"] = stubs["internal/stringslite.Clone"]
+	// strings.ToUpper / ToLower: concrete strings use the library; symbolic strings are
+	// case-folded byte-wise when every byte is ASCII (one branch on that); a symbolic
+	// string with a non-ASCII byte is unsupported (harnesses assume ASCII where they fold).
+	caseFold := func(upper bool) func(e *Exec, fn *ssa.Function, a []Value) Value {
+		return func(e *Exec, fn *ssa.Function, a []Value) Value {
+			if s, ok := a[0].(string); ok {
+				if upper {
+					return strings.ToUpper(s)
+				}
+				return strings.ToLower(s)
+			}
+			ts := e.ts
+			b := e.strBytes(a[0])
+			ascii := ts.Bool(true)
+			for _, t := range b {
+				ascii = ts.And(ascii, ts.Ult(t, ts.Const(8, 0x80)))
+			}
+			if !e.branch(ascii) {
+				panic(unsupported("case folding of a symbolic string with a non-ASCII byte"))
+			}
+			r := make([]*Term, len(b))
+			for i, t := range b {
+				lo, hi := uint64('a'), uint64('z')
+				if !upper {
+					lo, hi = 'A', 'Z'
+				}
+				in := ts.And(ts.Ule(ts.Const(8, lo), t), ts.Ule(t, ts.Const(8, hi)))
+				var m *Term
+				if upper {
+					m = ts.Bin(OpSub, t, ts.Const(8, 32))
+				} else {
+					m = ts.Bin(OpAdd, t, ts.Const(8, 32))
+				}
+				r[i] = ts.Ite(in, m, t)
+			}
+			return mkStr(r)
+		}
+	}
+	stubs["strings.ToUpper"] = caseFold(true)
+	stubs["strings.ToLower"] = caseFold(false)
+	// strings.ReplaceAll / regexp: the standard library is trusted not to crash; concrete
+	// arguments are computed by the library itself, symbolic ones get an arbitrary
+	// outcome (compile succeeds or fails; a match is an arbitrary boolean).
+	stubs["strings.ReplaceAll"] = func(e *Exec, fn *ssa.Function, a []Value) Value {
+		s0, ok0 := a[0].(string)
+		s1, ok1 := a[1].(string)
+		s2, ok2 := a[2].(string)
+		if ok0 && ok1 && ok2 {
+			return strings.ReplaceAll(s0, s1, s2)
+		}
+		if ok1 && ok2 && len(s1) == 1 {
+			// symbolic subject, one-byte pattern: exact when no byte equals the pattern (one branch)
+			ts := e.ts
+			b := e.strBytes(a[0])
+			none := ts.Bool(true)
+			for _, t := range b {
+				none = ts.And(none, ts.Not(ts.Eq(t, ts.Const(8, uint64(s1[0])))))
+			}
+			if e.branch(none) {
+				return a[0]
+			}
+			// some byte matches: concretize which (small strings only)
+			var out []*Term
+			for _, t := range b {
+				if e.branch(ts.Eq(t, ts.Const(8, uint64(s1[0])))) {
+					out = append(out, e.strBytes(s2)...)
+				} else {
+					out = append(out, t)
+				}
+			}
+			return mkStr(out)
+		}
+		panic(unsupported("strings.ReplaceAll with a symbolic pattern"))
+	}
+	stubs["regexp.Compile"] = func(e *Exec, fn *ssa.Function, a []Value) Value {
+		rt := fn.Signature.Results().At(0).Type().(*types.Pointer).Elem()
+		mk := func(re *regexp.Regexp) Value {
+			p := new(Value)
+			*p = e.zero(rt)
+			m, _ := e.extra["regexps"].(map[*Value]*regexp.Regexp)
+			if m == nil {
+				m = map[*Value]*regexp.Regexp{}
+				e.extra["regexps"] = m
+			}
+			m[p] = re
+			return p
+		}
+		if s, ok := a[0].(string); ok {
+			re, err := regexp.Compile(s)
+			if err != nil {
+				return Tuple{(*Value)(nil), e.mkError(err.Error())}
+			}
+			return Tuple{mk(re), Iface{}}
+		}
+		if e.branch(e.freshBool("regexp.compiles")) {
+			return Tuple{mk(nil), Iface{}}
+		}
+		return Tuple{(*Value)(nil), e.mkError("error parsing regexp")}
+	}
+	stubs["(*regexp.Regexp).MatchString"] = func(e *Exec, fn *ssa.Function, a []Value) Value {
+		p, _ := a[0].(*Value)
+		if p == nil {
+			panic(targetPanic{v: "nil pointer dereference", kind: "nil pointer dereference", fn: e.curFn()})
+		}
+		m, _ := e.extra["regexps"].(map[*Value]*regexp.Regexp)
+		if re := m[p]; re != nil {
+			if s, ok := a[1].(string); ok {
+				return e.ts.Bool(re.MatchString(s))
+			}
+		}
+		return e.freshBool("regexp.match")
+	}
 	stubs["(*strings.Builder).copyCheck"] = func(e *Exec, fn *ssa.Function, a []Value) Value { return nil }
 	stubs["crypto/md5.Sum"] = func(e *Exec, fn *ssa.Function, a []Value) Value {
 		s := a[0].(Slice)
@@ -555,6 +668,10 @@ func stubSprintf(e *Exec, fn *ssa.Function, a []Value) Value {
 			emit(fmt.Sprintf(spec, x))
 		case *Term:
 			if !x.IsConst() {
+				if verb == 'd' && len(spec) == 2 && x.w >= 8 {
+					out = append(out, e.symDecimal(x, iv.t != nil && isSigned(iv.t))...)
+					continue
+				}
 				return "<fmt:" + format + ">"
 			}
 			if x.w == 0 {
@@ -581,6 +698,10 @@ func stubSprintf(e *Exec, fn *ssa.Function, a []Value) Value {
 				bs[k] = byte(t.c)
 			}
 			if !conc {
+				if hx, ok := e.symHexBytes([]Value(x)); ok && spec == "%x" {
+					out = append(out, hx...)
+					continue
+				}
 				return "<fmt:" + format + ">"
 			}
 			emit(fmt.Sprintf(spec, bs))
@@ -608,6 +729,59 @@ func stubSprintf(e *Exec, fn *ssa.Function, a []Value) Value {
 		}
 	}
 	return mkStr(out)
+}
+
+// symDecimal renders a symbolic integer in decimal: the number of digits (and the sign)
+// is decided by branching, the digits themselves are terms.
+func (e *Exec) symDecimal(x *Term, signed bool) []*Term {
+	ts := e.ts
+	var out []*Term
+	v := x
+	if signed {
+		if e.branch(ts.Slt(x, ts.Const(x.w, 0))) {
+			out = append(out, ts.Const(8, '-'))
+			v = ts.Neg(x)
+		}
+	}
+	maxDigits := map[uint8]int{8: 3, 16: 5, 32: 10, 64: 20}[v.w]
+	n := 1
+	pow := uint64(10)
+	for n < maxDigits {
+		if e.branch(ts.Ult(v, ts.Const(v.w, pow))) {
+			break
+		}
+		n++
+		pow *= 10
+	}
+	div := uint64(1)
+	digits := make([]*Term, n)
+	for i := n - 1; i >= 0; i-- {
+		q := v
+		if div > 1 {
+			q = ts.Bin(OpUDiv, v, ts.Const(v.w, div))
+		}
+		d := ts.Bin(OpURem, q, ts.Const(v.w, 10))
+		digits[i] = ts.Bin(OpAdd, ts.Trunc(d, 8), ts.Const(8, '0'))
+		div *= 10
+	}
+	return append(out, digits...)
+}
+
+// symHexBytes renders bytes as lower-case hex (fmt's %x on a byte array or slice).
+func (e *Exec) symHexBytes(x []Value) ([]*Term, bool) {
+	ts := e.ts
+	var out []*Term
+	nib := func(n *Term) *Term {
+		return ts.Ite(ts.Ult(n, ts.Const(8, 10)), ts.Bin(OpAdd, n, ts.Const(8, '0')), ts.Bin(OpAdd, n, ts.Const(8, 'a'-10)))
+	}
+	for _, el := range x {
+		t, ok := el.(*Term)
+		if !ok || t.w != 8 {
+			return nil, false
+		}
+		out = append(out, nib(ts.Bin(OpLShr, t, ts.Const(8, 4))), nib(ts.Bin(OpBAnd, t, ts.Const(8, 15))))
+	}
+	return out, true
 }
 
 func (e *Exec) describe(iv Iface) string {
